@@ -419,6 +419,17 @@ func (x *c01) hostile() {
 	}
 	// include cycles: must end in an error, not in stack exhaustion
 	inject = append(inject, "{% include 'self.html' %}", "a{% include 'p.html' %}b", "{% xfile self.html %}", "{% for i in (1..3) %}{% include 'self.html' %}{% endfor %}", "{% capture c %}{% include 'q.html' %}{% endcapture %}{{ c | size }}", "{% xbfile self.html %}{% endxbfile %}")
+	// depth: a filter evaluates the filter before it, and compiling and rendering recurse once per block level; a goroutine
+	// stack that outgrows the runtime's limit ends the process, which no recover can prevent. The sizes are the ones at
+	// which that happened (3 million filters, 800000 blocks) and ones just around any sensible limit.
+	for _, n := range []int{1000, 99_999, 100_001, 3_200_000} {
+		inject = append(inject, "{{ 1 "+strings.Repeat("|abs", n)+" }}")
+	}
+	for _, n := range []int{1000, 99_999, 100_001, 850_000} {
+		inject = append(inject, strings.Repeat("{%if 1%}", n)+"x"+strings.Repeat("{%endif%}", n))
+	}
+	inject = append(inject, strings.Repeat("{%for i in (1..1)%}{%xwrap a%}{%capture c%}", 40_000)+"x"+strings.Repeat("{%endcapture%}{%endxwrap%}{%endfor%}", 40_000),
+		"{{ a"+strings.Repeat(".a", 2_000_000)+" }}", "{% if 1"+strings.Repeat(" and 1", 1_000_000)+" %}y{% endif %}", "{{ a"+strings.Repeat("[0]", 1_000_000)+" }}")
 	env := hostileEnv
 	// frozen regression inputs: every source that ever produced a genuine violation (or that the development-time
 	// fuzzer found interesting) stays in /verif/corpus/C01 and is replayed first
